@@ -22,6 +22,13 @@ def spec_items(mode, n, seed, rep=None):
         v = b["verdict"]
         valid = v["valid"]
         exc = "documented exception" if (valid and v["lbz_rejects"]) else None
+        # the inspector (independent code path, derandomisation included) must agree with the specification's verdict,
+        # otherwise neither can serve as the reference for this file
+        ins = bzfmt.inspect(data)
+        if ins.valid != valid or (valid and bool(ins.lbz_exception) != bool(exc)):
+            import vlib
+            raise vlib.Infra("BZ2.tla and tools/bzfmt.py disagree on %s%d (%s): specification valid=%s exception=%s, inspector valid=%s (%s) exception=%s"
+                             % (mode, i, info["kind"], valid, bool(exc), ins.valid, ins.reason, ins.lbz_exception))
         nblocks = sum(len(s["blocks"]) for s in b["file"]["streams"])
         out.append(Item("%s%d:%s" % (mode, i, info["kind"]), data, valid, plain, exc, origin="BZ2.tla " + mode,
                         nontrivial=nblocks >= 1))
